@@ -7,7 +7,7 @@
 use libfuzzer_sys::fuzz_target;
 use vf_c01::obs::WalkCfg;
 use vf_c01::payload::{scan_payload, walk_payload, RealArgs};
-use vf_fuzz::{judge_panic, stat};
+use vf_fuzz::{violation, judge_panic, stat};
 
 const TAGS: [&[u8; 4]; 8] = [b"hmtx", b"vmtx", b"hdmx", b"sbix", b"cmap", b"COLR", b"GSUB", b"scan"];
 const ARG: [u16; 8] = [0, 1, 2, 5, 100, 300, 0x7FFF, 0xFFFF];
@@ -67,6 +67,12 @@ fn run(data: &[u8]) {
     }
     for (what, p) in &obs.panics {
         judge_panic(p, what);
+    }
+    for a in &obs.work_alarms {
+        violation(
+            &format!("work-bound:{}:{}", a.helper, a.ceiling_expr),
+            &format!("iterator yielded {} items, ceiling {}", a.yielded, a.ceiling),
+        );
     }
 }
 
